@@ -18,6 +18,12 @@
 // live on ONE engine and are rendered one after the other, in every rotation of their order and
 // in reverse order, two rounds each; two sites import the library several times within one render
 // (import/from inside a loop body, an importing template included from a loop body).
+//
+// Version dimension (replace.go): the macro a name designates changes between two renders of cached
+// calling templates — the macro LIBRARY is replaced (registered again, or changed in a loader with the
+// cache off / with auto-reload) by a second version with another body / other defaults / other arity and
+// replaced back; and a shared partial calls the macro supplied by its includer under two includers that
+// supply different macros of that name, rendered alternately in both orders.
 package main
 
 import (
@@ -226,9 +232,9 @@ type kase struct {
 	ArgSt   int
 	Body    int
 	Site    int
-	Pad     int // 0 none, 1 defining template above 4096 bytes, 2 calling template above 4096 bytes
-	Hist    int // hEach or hSeq
-	Use     int // uPrint … uTwo
+	Pad     int  // 0 none, 1 defining template above 4096 bytes, 2 calling template above 4096 bytes
+	Hist    int  // hEach or hSeq
+	Use     int  // uPrint … uTwo
 	Mark    bool // second version of the macro (families replace, partial): the body's text carries a mark; not part of the key
 }
 
@@ -891,7 +897,7 @@ func families(thorough bool) []family {
 			{name: "replace-pad", kind: kReplace, names: f, maxN: 2, defSt: []int{0}, spacings: []int{0}, argSt: []int{asStr, asVar}, bodies: []int{bPrint, bSelfSibling, bRelInc}, sites: ints(nSites), pads: []int{1, 2}, changes: ints(nChanges), mechs: ints(nMechs)},
 			{name: "replace-held", kind: kReplace, names: f, maxN: 2, defSt: []int{0}, spacings: []int{0}, argSt: []int{asStr, asPar}, bodies: []int{bPrint, bSelfSibling}, sites: ints(nSites), pads: []int{0}, minArgc: 1, uses: heldUses, changes: ints(nChanges), mechs: []int{mReg, mReload}},
 			// a shared partial calls the macro its includer supplies; two includers, two macros (replace.go)
-			{name: "partial", kind: kPartial, names: f, maxN: 3, defSt: []int{0, 1}, spacings: []int{0}, argSt: ints(nArgStyles), bodies: ints(nBodies), sites: ints(nSites), pads: []int{0, 1, 2}, changes: ints(nChanges)},
+			{name: "partial", kind: kPartial, names: f, maxN: 3, defSt: []int{0, 1}, spacings: []int{0}, argSt: ints(nArgStyles), bodies: ints(nBodies), sites: ints(nSites), pads: []int{0, 2}, changes: ints(nChanges)},
 			{name: "partial-held", kind: kPartial, names: f, maxN: 2, defSt: []int{0}, spacings: []int{0}, argSt: []int{asStr, asPar}, bodies: ints(nBodies), sites: ints(nSites), pads: []int{0}, minArgc: 1, uses: heldUses, changes: ints(nChanges)},
 		}
 	}
@@ -991,7 +997,7 @@ func main() {
 	vlib.Main(vlib.Spec{
 		ID:    "C12",
 		Level: "exploration",
-		Rule:  "every macro signature with 0–3 parameters × every subset with defaults × 5 kinds of constant default × 4 declaration spacings × argument lists of 0…n+1 arguments × 6 kinds of argument × 6 bodies (print, set inside, call a sibling, call a sibling through _self, if/for over parameters, include a name relative to the defining template) × 11 call sites (top, for, if, block, block of an extending template, included template, inside another macro, through a macro w next to f calling f / _self.f, import statement inside a for body, importing template included from a for body) × padding of the defining or the calling template above 4096 bytes, as a union of full products (families, see NOTES.md). One case takes the same macro and call once per way of reaching it (direct, _self, import, from, from-as, multi-name from) and compares every render with the binding model. Histories on one engine: history 'each' renders every way's calling template three times in a row on its own engine; history 'seq' (own families) puts the calling templates of all ways on ONE engine next to one library and renders them one after the other, in every rotation of their order and in reverse, two passes each. Use of the call's VALUE (families 'held', 'held-seq', calls with at least one argument): besides being printed once, the value is held and used several times — {% set r = CALL %}{{ r }}|{{ r }}; {% set r = CALL %}{% for i in [1, 2] %}{{ r }}{% endfor %}; passed to a macro tw that prints its parameter twice, tw reached through {% import 'olib' as o %} (o.tw(CALL)) or defined in the calling template (tw(CALL), _self.tw(CALL)); two calls of the macro with different arguments held before either is printed ({% set r = CALL %}{% set q = CALL2 %}{{ r }}{{ q }}{{ r }}) — for every way of reaching the macro, on every site; model: a held value is the text the call renders, every time it is used. Non-trivial: the signature or the call has at least one parameter/argument, i.e. a binding decision is made",
+		Rule:  "every macro signature with 0–3 parameters × every subset with defaults × 5 kinds of constant default × 4 declaration spacings × argument lists of 0…n+1 arguments × 6 kinds of argument × 6 bodies (print, set inside, call a sibling, call a sibling through _self, if/for over parameters, include a name relative to the defining template) × 11 call sites (top, for, if, block, block of an extending template, included template, inside another macro, through a macro w next to f calling f / _self.f, import statement inside a for body, importing template included from a for body) × padding of the defining or the calling template above 4096 bytes, as a union of full products (families, see NOTES.md). One case takes the same macro and call once per way of reaching it (direct, _self, import, from, from-as, multi-name from) and compares every render with the binding model. Histories on one engine: history 'each' renders every way's calling template three times in a row on its own engine; history 'seq' (own families) puts the calling templates of all ways on ONE engine next to one library and renders them one after the other, in every rotation of their order and in reverse, two passes each. Use of the call's VALUE (families 'held', 'held-seq', calls with at least one argument): besides being printed once, the value is held and used several times — {% set r = CALL %}{{ r }}|{{ r }}; {% set r = CALL %}{% for i in [1, 2] %}{{ r }}{% endfor %}; passed to a macro tw that prints its parameter twice, tw reached through {% import 'olib' as o %} (o.tw(CALL)) or defined in the calling template (tw(CALL), _self.tw(CALL)); two calls of the macro with different arguments held before either is printed ({% set r = CALL %}{% set q = CALL2 %}{{ r }}{{ q }}{{ r }}) — for every way of reaching the macro, on every site; model: a held value is the text the call renders, every time it is used. Version dimension (families 'replace…', 'partial…'; keys 'repl:<how>:<change>|…', 'part:<wayA>><wayB>:<change>|…'): the macro has a second version — other body text / the complementary subset of defaults of another kind / one parameter more / one fewer / all three at once. replace: the calling templates of the ways import, from, from-as, multi-name from stand on one engine next to the library; all are rendered, the library is replaced by the other version, all are rendered, it is replaced back, all are rendered (starting from either version, callers in order and in reverse order); replaced by RegisterString again / by changing the source in a loader with caching disabled / by changing source and modification time in a timestamp-aware loader with auto-reload on / the same with the calling templates registered as strings; every render must equal the model of the version current at that render. partial: includers pageA and pageB supply version 1 and version 2 of the macro (defined in the includer, or reached there by from / from-as / multi-name from / import from its own library; every pair of ways for which the call reads the same), call it and then include the shared partial row, which makes the same call; pageA, pageB, pageA, pageB and pageB, pageA, pageB, pageA on one engine each: both calls must render the version of the page being rendered. Non-trivial: the signature or the call has at least one parameter/argument, i.e. a binding decision is made (version families: and the two versions render differently)",
 		Assumptions: []string{
 			"defaults and arguments are constant expressions or caller-scope variables; bodies read only their parameters; the result of a macro call is printed, assigned with set and printed, or passed as an argument to a macro that prints it (never part of a larger expression, never filtered); calls stand after the definitions/imports they use",
 			"macros are defined at top level of a template that does not extend another one; more than three parameters, named arguments and other body shapes are outside the bound",
@@ -1008,8 +1014,26 @@ func main() {
 						uses = append(uses, useName[u])
 					}
 				}
+				extra := ""
+				switch f.kind {
+				case kReplace:
+					var ch, ms []string
+					for _, c := range f.changes {
+						ch = append(ch, changeName[c])
+					}
+					for _, m := range f.mechs {
+						ms = append(ms, mechName[m])
+					}
+					extra = fmt.Sprintf("; the library is replaced by a second version and replaced back (second version differs in %v; replaced by %v), ways import/from/alias/multi on one engine", ch, ms)
+				case kPartial:
+					var ch []string
+					for _, c := range f.changes {
+						ch = append(ch, changeName[c])
+					}
+					extra = fmt.Sprintf("; sites top/loop/if/block only, bodies without relinc: two includers supply two versions of the macro (second version differs in %v) to one shared partial, %d pairs of ways of supplying (define, from, alias, multi, import), includers rendered alternately in both orders", ch, len(supplyPairs()))
+				}
 				fs = append(fs, fmt.Sprintf("%s: macro names %v, 0-%d parameters x every default subset, %d default kinds, %d spacings, %d argument kinds, %d bodies, %d sites, %d padding variants, uses of the call's value %v, %d ways of reaching per case, history %s",
-					f.name, f.names, f.maxN, len(f.defSt), len(f.spacings), len(f.argSt), len(f.bodies), len(f.sites), len(f.pads), uses, nReaches, histName[f.hist]))
+					f.name, f.names, f.maxN, len(f.defSt), len(f.spacings), len(f.argSt), len(f.bodies), len(f.sites), len(f.pads), uses, nReaches, histName[f.hist])+extra)
 			}
 			cov["families"] = fs
 			cov["histories"] = fmt.Sprintf("each: one engine per way of reaching the macro, its calling template rendered %d times in a row; seq: the calling templates of all ways on one engine, rendered one after the other in every rotation of the order %v and in reverse order, %d passes each", repeats, reachName, rounds)
